@@ -353,6 +353,23 @@ class Inliner:
         known = set(load_inventory().get("functions") or [])
         self.known_names = {q.split(".")[-1] for q in known}
         self.counter = 0
+        # a helper that (directly or through other new helpers) calls itself is never inlined
+        self._recursive = set()
+        calls = {}
+        for fi in self.new:
+            names = {c.func.attr if isinstance(c.func, ast.Attribute) else (c.func.id if isinstance(c.func, ast.Name) else None)
+                     for c in ast.walk(fi.node) if isinstance(c, ast.Call)}
+            calls[fi.qual] = {g.qual for nm in names if nm in self.new_by_name for g in self.new_by_name[nm]}
+        for q in calls:
+            seen, work = set(), list(calls[q])
+            while work:
+                x = work.pop()
+                if x in seen:
+                    continue
+                seen.add(x)
+                work.extend(calls.get(x, ()))
+            if q in seen:
+                self._recursive.add(q)
         self.inlined_sites: Dict[str, int] = {}
         self.left_sites: Dict[str, int] = {}
         self.log: List[str] = []
@@ -416,6 +433,8 @@ class Inliner:
     # ---- one call ------------------------------------------------------------------------
     def expand(self, call: ast.Call, callee, recv, mode, target, caller_names: Set[str], depth: int, with_body=None, as_var=None):
         """Return the statement list that replaces the call. mode: drop | assign | return | with"""
+        if callee.qual in self._recursive:
+            raise NotInlinable("recursive helper")
         fn = copy.deepcopy(callee.node)
         prm = _params(fn)
         if prm is None:
